@@ -57,6 +57,21 @@ Definition x_unwrap_clear := kb_unwrap_clear real_tdes real_aes.
 Definition x_wrap_str := wrap_str real_tdes real_aes.
 Definition x_header_str := header_str.
 
+(* Python primitives, exposed for the conformance test against CPython *)
+Definition p_fromhex := bytes_fromhex.
+Definition p_a2b := a2b_hex.
+Definition p_str_of_N := str_of_N.
+Definition p_to_bytes_be := to_bytes_be.
+Definition p_hex_lower := hex_lower.
+Definition p_hex_upper := hex_upper.
+Definition p_class (s : str) : list N :=
+  map (fun b : bool => if b then 1%N else 0%N)
+      [ascii_numeric s; ascii_alphanumeric s; ascii_printable s; ascii_hexchar s; is_pad_id s].
+Definition p_upper := ascii_upper.
+Definition p_int_of_dec := int_of_dec.
+Definition p_int_of_hex := int_of_hex.
+Definition p_encode_ascii := encode_ascii.
+
 Extraction "model.ml"
   x_des_block_enc x_des_block_dec x_aes_block_enc x_aes_block_dec
   x_xor x_odd_parity x_apply_key_variant x_adjust_key_parity x_generate_kcv
@@ -70,4 +85,6 @@ Extraction "model.ml"
   x_decode_pinblock_iso_0 x_decode_pinblock_iso_2 x_decode_pinblock_iso_3
   x_decode_pin_field_iso_4 x_decipher_pinblock_iso_4
   x_new_header x_default_header x_run x_mkState x_unwrap x_unwrap_legacy x_unwrap_clear
-  x_wrap_str x_header_str.
+  x_wrap_str x_header_str
+  p_fromhex p_a2b p_str_of_N p_to_bytes_be p_hex_lower p_hex_upper p_class p_upper
+  p_int_of_dec p_int_of_hex p_encode_ascii.
